@@ -269,11 +269,55 @@ def measures_part(ctx, fails):
     c07.frame_part_list(ctx, fails, frames)
 
 
+def outcome_rows_part(ctx, fails):
+    """rows with a MISSING OUTCOME are kept by AIPTW / TMLE, but the outcome model is fitted on the observed outcomes only: what
+    such rows carry in their covariates must not reach the fitted outcome model.  The covariate of those rows is rescaled and the
+    outcome-model predictions on the rows with an observed outcome are compared; formulas include patsy's data-dependent
+    transforms (spline knots, centring), which take their state from the rows handed to the model."""
+    from zepid.causal.doublyrobust import AIPTW, TMLE
+    n = 3 if ctx.quick else 20
+    forms = ['A + bs(W0, df=4, lower_bound=-40, upper_bound=40)', 'A + W0', 'A + cr(W0, df=3)', 'A + center(W0) + I(center(W0)**2)']
+    for i in range(n):
+        otype = ['binary', 'normal'][i % 2]
+        df, meta = datagen.mixed_frame(ctx.rng, n=ctx.rng.randint(150, 260), outcome=otype, missing='mar', n_cont=1, n_cat=1)
+        miss = df['Y'].isna().values
+        if miss.sum() < 5:
+            continue
+        alt = df.copy()
+        alt.loc[miss, 'W0'] = alt.loc[miss, 'W0'] * 3.0 + 2.0        # only rows WITHOUT an outcome change
+        payload = {'part': 'outcome-rows', 'frame': datagen.pack_frame(df)}
+        ctx.evaluations += 1
+        for form in forms[:2] if ctx.quick and i else forms:
+            for cls in (TMLE, AIPTW):
+                name = cls.__name__
+                try:
+                    preds = []
+                    for d in (df, alt):
+                        o = cls(d, 'A', 'Y')
+                        o.exposure_model('C0', print_results=False)
+                        o.outcome_model(form, print_results=False)
+                        q1 = np.asarray(o.QA1W if name == 'TMLE' else o.df['_pY1_'], dtype=float)
+                        keep = np.asarray(o.df['Y'].notna()) if name == 'AIPTW' else np.asarray(o.df[o._missing_indicator] == 1)
+                        preds.append(q1[keep])
+                except Exception as e:   # noqa
+                    fails.append((len(df), '%s.outcome-model.raises' % name, '%s.outcome_model(%r) raised %s: %s' % (name, form, type(e).__name__, str(e)[:100]), payload))
+                    continue
+                ctx.programs += 1
+                ctx.disagreements_checked += 1
+                ctx.count('outcome-rows:' + form.split('+')[1].strip().split('(')[0])
+                dev = float(np.max(np.abs(preds[0] - preds[1]))) if len(preds[0]) == len(preds[1]) else float('inf')
+                if dev > 1e-8 * max(1.0, float(np.max(np.abs(preds[0])))):
+                    fails.append((len(df), '%s.outcome-model.uses-rows-without-outcome' % name,
+                                  '%s.outcome_model(%r): predictions for the rows WITH an observed outcome move by %.3g when only the covariate of '
+                                  'the rows WITHOUT an outcome is changed: those rows reach the fitted outcome model' % (name, form, dev), payload))
+
+
 def run(ctx):
     fails = []
     deletion_part(ctx, fails)
     saturated_part(ctx, fails)
     measures_part(ctx, fails)
+    outcome_rows_part(ctx, fails)
     report(ctx, fails)
 
 
